@@ -45,7 +45,8 @@ theorem import_one (tbl : UnitTable) (env : Env) (hgood : ∀ n ∈ env.nodes, G
     (hc : CopyOK tbl c) (ss' : List SNode)
     (h : sImportOne tbl (env.nodes.map absN) (absN c) = some ss') :
     ∃ env', processNode tbl env c = .ok env' ∧ env'.nodes.map absN = ss' ∧
-      (∀ n ∈ env'.nodes, Good tbl n) ∧ env'.sources = env.sources ∧ env'.units = env.units := by
+      (∀ n ∈ env'.nodes, Good tbl n) ∧ env'.sources = env.sources ∧ env'.units = env.units ∧
+      env'.srcUnits = env.srcUnits := by
   unfold sImportOne at h
   cases hany : (env.nodes.map absN).any (fun m => decide (m.path = (absN c).path)) with
   | false =>
@@ -57,7 +58,7 @@ theorem import_one (tbl : UnitTable) (env : Env) (hgood : ∀ n ∈ env.nodes, G
         exact ⟨absN t, List.mem_map_of_mem ht, by simp [absN, e]⟩
       rw [this] at hany
       cases hany
-    refine ⟨_, processNode_copy tbl env c hc hfresh, by simp [← h], ?_, rfl, rfl⟩
+    refine ⟨_, processNode_copy tbl env c hc hfresh, by simp [← h], ?_, rfl, rfl, rfl⟩
     intro n hn
     simp only [List.mem_append, List.mem_singleton] at hn
     rcases hn with hn | rfl
@@ -81,27 +82,28 @@ theorem import_one (tbl : UnitTable) (env : Env) (hgood : ∀ n ∈ env.nodes, G
           rw [this]
         · simp [hk] at hs)
       hgood hraw h
-    exact ⟨_, processNode_land tbl env c hc ns' hmf, habs, hg', rfl, rfl⟩
+    exact ⟨_, processNode_land tbl env c hc ns' hmf, habs, hg', rfl, rfl, rfl⟩
 
 theorem import_all (tbl : UnitTable) (cs : List Node) (env : Env) (hgood : ∀ n ∈ env.nodes, Good tbl n)
     (hok : ∀ c ∈ cs, CopyOK tbl c) (ss' : List SNode)
     (h : sImportAll tbl (env.nodes.map absN) (cs.map absN) = some ss') :
     ∃ env', cs.foldlM (processNode tbl) env = .ok env' ∧ env'.nodes.map absN = ss' ∧
-      (∀ n ∈ env'.nodes, Good tbl n) ∧ env'.sources = env.sources ∧ env'.units = env.units := by
+      (∀ n ∈ env'.nodes, Good tbl n) ∧ env'.sources = env.sources ∧ env'.units = env.units ∧
+      env'.srcUnits = env.srcUnits := by
   induction cs generalizing env with
   | nil =>
     simp only [List.map_nil, sImportAll, Option.some.injEq] at h
-    exact ⟨env, rfl, h, hgood, rfl, rfl⟩
+    exact ⟨env, rfl, h, hgood, rfl, rfl, rfl⟩
   | cons c rest ih =>
     simp only [List.map_cons, sImportAll] at h
     cases h1 : sImportOne tbl (env.nodes.map absN) (absN c) with
     | none => simp [h1] at h
     | some s1 =>
       simp only [h1] at h
-      obtain ⟨env1, hp, habs, hg1, hs1, hu1⟩ := import_one tbl env hgood c (hok c (by simp)) s1 h1
+      obtain ⟨env1, hp, habs, hg1, hs1, hu1, hq1⟩ := import_one tbl env hgood c (hok c (by simp)) s1 h1
       rw [← habs] at h
-      obtain ⟨env', hrun, habs', hg', hs', hu'⟩ := ih env1 hg1 (fun x hx => hok x (by simp [hx])) h
-      refine ⟨env', ?_, habs', hg', hs'.trans hs1, hu'.trans hu1⟩
+      obtain ⟨env', hrun, habs', hg', hs', hu', hq'⟩ := ih env1 hg1 (fun x hx => hok x (by simp [hx])) h
+      refine ⟨env', ?_, habs', hg', hs'.trans hs1, hu'.trans hu1, hq'.trans hq1⟩
       simp only [List.foldlM_cons, hp, bind, Except.bind]
       exact hrun
 
@@ -162,14 +164,14 @@ theorem refine_imp (tbl : UnitTable) (env : Env) (hinv : Inv tbl env) (dest : Li
         obtain ⟨n, hn, _, rfl⟩ := (mem_query ns (toQuery q) m).mp hm
         exact good_mkCopy tbl _ rfl (toQuery q) n (hgood n hn)
       rw [← hselabs] at hall
-      obtain ⟨env', hrun, habs, hg', hsrcs, hunits⟩ := import_all tbl _ env hinv.1 hok ss' hall
+      obtain ⟨env', hrun, habs, hg', hsrcs, hunits, hsu⟩ := import_all tbl _ env hinv.1 hok ss' hall
       refine ⟨env', ?_, ?_, ⟨hg', by rw [hsrcs]; exact hinv.2⟩⟩
       · rw [← hc]
         have hk : (impLine dest source q).kw = .imp := rfl
         simp only [step, hk, if_true, himp]
         exact hrun
       · rw [← h]
-        simp only [absEnv, habs, hsrcs, hunits]
+        simp only [absEnv, habs, hsrcs, hunits, hsu]
 
 /-- One statement of the fragment: whenever the specification accepts it, the model's main loop
     accepts its line and ends in a state whose abstraction is the specification's new state. -/
@@ -189,6 +191,7 @@ theorem refine_step (tbl : UnitTable) (env : Env) (hinv : Inv tbl env) (stmt : S
   | description path d => exact absurd hfrag (by simp [InFrag])
   | decl path kw dims unit => exact absurd hfrag (by simp [InFrag])
   | unitdef name v unit => exact absurd hfrag (by simp [InFrag])
+  | unitimp a b => exact absurd hfrag (by simp [InFrag])
   | caseCond v => exact absurd hfrag (by simp [InFrag])
   | caseElse => exact absurd hfrag (by simp [InFrag])
   | caseEnd => exact absurd hfrag (by simp [InFrag])
